@@ -53,6 +53,9 @@ def to_v2(v):
 
 
 # ------------------------------------------------------------------ Data side
+CT_SEQ = [0]
+
+
 def check_data_side(ctx, rng):
     cases = []
     for fe in ('v2', 'v1'):
@@ -101,7 +104,10 @@ def run_data_case(ctx, fe, verdict, L, t_data, lat, await_at=0, implicit=False, 
     obs = {}
     vlog = []
     name = [C(b'd'), C(b'x')]
-    wire = bytes(make_data(name, MetaInfo(freshness_period=5), b'payload', DigestSha256Signer()))
+    # the Data's ContentType (BLOB, LINK, KEY, application-level NACK, absent, an unassigned number) is no input of validation
+    CT_SEQ[0] += 1
+    ct = [0, 3, 2, 1, None, 3, 1024, 3][CT_SEQ[0] % 8]
+    wire = bytes(make_data(name, MetaInfo(content_type=ct, freshness_period=5), b'payload', DigestSha256Signer()))
     # fetched by full name: the Interest carries the implicit digest of exactly this packet; the validator still decides
     iname = name + [rc.comp(1, __import__('hashlib').sha256(wire).digest())] if implicit else name
 
@@ -231,7 +237,8 @@ def check_data_multi(ctx, rng):
             vlog = []
             vnames = []
             name = [C(b'm'), C(b'x')]
-            wire = bytes(make_data(name, MetaInfo(), b'payload', DigestSha256Signer()))
+            CT_SEQ[0] += 1
+            wire = bytes(make_data(name, MetaInfo(content_type=[0, 3, 2, 3, None, 1][CT_SEQ[0] % 6]), b'payload', DigestSha256Signer()))
 
             async def main(S):
                 face = RecFace()
@@ -395,7 +402,7 @@ def run_interest_batch(ctx, rng, fe, configs, matrix):
             def mk_handler(ci=ci):
                 if fe == 'v2':
                     return lambda n, p, reply, c: hlog.append((ci, tuple(bytes(x) for x in n), S.now_ms()))
-                return lambda n, p, a: hlog.append((ci, tuple(bytes(x) for x in n), S.now_ms()))
+                return lambda n, p, a, **kw: hlog.append((ci, tuple(bytes(x) for x in n), S.now_ms()))
 
             def mk_validator(ci=ci, verdict=verdict, lat=lat):
                 if fe == 'v2':
@@ -419,7 +426,8 @@ def run_interest_batch(ctx, rng, fe, configs, matrix):
             if fe == 'v2':
                 the_app.attach_handler(prefix, mk_handler(), val)
             else:
-                the_app.set_interest_filter(prefix, mk_handler(), val)
+                # legacy delivery options (raw packet / signature pointers handed to the handler) are no input of validation
+                the_app.set_interest_filter(prefix, mk_handler(), val, need_raw_packet=(ci % 2 == 1), need_sig_ptrs=(ci % 3 != 1))
         seq = 0
         for ci, (kind, verdict, lat) in enumerate(configs):
             for (app, sk, dm) in matrix:
